@@ -4,7 +4,5 @@ CONSTANTS
   Month = 2678400
   Limit = 8192
   Week = 604800
-INVARIANTS TrErrorsAgree TrNoUnexpectedError TrNonEmpty TrLODSteps TrLODFiner TrLimit TrIncreasing TrLenSum
-  TrPointShape TrDiffs TrAligned TrView TrCoverStart TrCoverEnd TrRanges
-  TrRound TrShift TrCalcRange TrCalcFixedZone TrCalcEpochZone
+CONSTRAINT Report
 CHECK_DEADLOCK FALSE
